@@ -29,7 +29,14 @@ type Config struct {
 	// Twins: every record 7k+6 is for the module "proxy.example/" + the path of record 7k+3, at the same
 	// version: its text contains the other record's "path version " prefix in the middle of its lines.
 	Twins bool
+	// Extra: further lines after the hash line of every tree head (tree heads are documented as extensible:
+	// readers ignore lines they do not know). 0 = none; otherwise an index into ExtraLines.
+	Extra int
 }
+
+// ExtraLines are texts a future server might add to its tree heads; they contain what careless formatting
+// and scanning trip over (per cent signs, the header line again, digits, a would-be signature marker without its dash).
+var ExtraLines = []string{"", "timestamp 1700000000\n", "load 75%, 3 of 4 %d %s %v %!\n", "go.sum database tree\n7\n", "100%\n%%\n", "note: - not a signature\n"}
 
 type ModVer struct{ Path, Version string }
 
@@ -112,7 +119,7 @@ func New(cfg Config) *World {
 	worldMu.Lock()
 	defer worldMu.Unlock()
 	key := cfg
-	key.H = 0
+	key.H, key.Extra = 0, 0
 	if w, ok := worlds[key]; ok {
 		c := *w
 		c.Cfg = cfg
@@ -200,14 +207,19 @@ func (w *World) Head(l *Log, n int64) []byte {
 		return nil // the empty, unsigned timeline
 	}
 	type k struct {
-		l *Log
-		n int64
+		l     *Log
+		n     int64
+		extra int
 	}
-	if v, ok := headCache.Load(k{l, n}); ok {
+	if v, ok := headCache.Load(k{l, n, w.Cfg.Extra}); ok {
 		return v.([]byte)
 	}
-	msg := w.SignText(TreeText(n, l.Tree.MTH(0, n)))
-	headCache.Store(k{l, n}, msg)
+	extra := ""
+	if w.Cfg.Extra > 0 && w.Cfg.Extra < len(ExtraLines) {
+		extra = ExtraLines[w.Cfg.Extra]
+	}
+	msg := w.SignText(TreeText(n, l.Tree.MTH(0, n)) + extra)
+	headCache.Store(k{l, n, w.Cfg.Extra}, msg)
 	return msg
 }
 
